@@ -1,0 +1,11 @@
+//go:build verif
+
+package mobile
+
+import "github.com/gmrtd/gmrtd/cms"
+
+// VerifCscaCertPool returns the cached built-in CSCA certificate pool (verification
+// hook, only built with the 'verif' tag). Call it after PreloadCscaCertPool returned.
+func VerifCscaCertPool() cms.CertPool {
+	return cscaCertPool
+}
